@@ -301,7 +301,7 @@ pub fn analyse(log: &[Rec], fams: &[Fam], meta: &Meta) -> Analysis {
                         handshake_out.remove(&(e, *id));
                         if let Some(sid) = by_flow.get(&(e, *id)).copied() {
                             let s = &mut streams.get_mut(&sid).expect("stream").s[e];
-                            if s.held && !s.dropped && !s.reset_delivered && !conn_end {
+                            if s.held && !s.dropped && !s.reset_delivered && !conn_end && !meta.stream_is_bridge {
                                 s.reset_sent_while_held = true;
                                 cx.fail(Fam::Credit, i, "reset-of-live-flow", format!("ep{e} sent Reset for s{sid} (flow {id:x}) although its application still holds the stream and the peer did not reset it"));
                             }
